@@ -77,6 +77,17 @@ const NACCT: usize = 3; // 0 = AccountMock contract, 1 and 2 = plain addresses; 
 const NSG: usize = 6;
 const FNAMES: [&str; 6] = ["transfer", "approve", "transferx", "Transfer", "mint", "transfe"];
 
+/// test-ledger configurations (two, as the persistence of the policy state must not depend on them)
+#[derive(Clone, Copy, Debug)]
+struct HostCfg { min_temp: u32, min_pers: u32, max_ttl: u32 }
+const HOSTS: [HostCfg; 2] = [
+    HostCfg { min_temp: 1, min_pers: 4096, max_ttl: 6_312_000 },
+    HostCfg { min_temp: 100, min_pers: 20_000, max_ttl: 1_000_000 },
+];
+/// ledger gaps, each made in ONE Advance call: the observation right after it reads every getter
+/// when nothing has touched (and thereby TTL-extended) any entry during the gap
+const GAPS: [u32; 8] = [20, 100, 17_281, 20_000, 600_000, 1_100_000, 4_000_000, 7_000_000];
+
 #[derive(Clone, Debug)]
 enum A { I(i128), U32(u32), Addr, U128(u128), I64(i64), Void, Sym, U64(u64) }
 #[derive(Clone, Debug)]
@@ -123,12 +134,13 @@ impl Auth {
 }
 
 impl World {
-    fn new(start: u32) -> World { World::with_universe(start, NACCT, RIDS.len()) }
-    fn with_universe(start: u32, na: usize, nr: usize) -> World {
+    fn new(start: u32) -> World { World::with_host(start, NACCT, RIDS.len(), HOSTS[0]) }
+    fn with_universe(start: u32, na: usize, nr: usize) -> World { World::with_host(start, na, nr, HOSTS[0]) }
+    fn with_host(start: u32, na: usize, nr: usize, h: HostCfg) -> World {
         let e = Env::default();
         e.cost_estimate().budget().reset_unlimited();
         e.cost_estimate().disable_resource_limits();
-        e.ledger().with_mut(|l| { l.sequence_number = start; l.min_temp_entry_ttl = 1; l.max_entry_ttl = 6_312_000; });
+        e.ledger().with_mut(|l| { l.sequence_number = start; l.min_temp_entry_ttl = h.min_temp; l.min_persistent_entry_ttl = h.min_pers; l.max_entry_ttl = h.max_ttl; });
         let simple = e.register(threshold_policy::ThresholdPolicyContract, ());
         let weighted = e.register(WeightedC, ());
         let spending = e.register(spending_policy::SpendingLimitPolicyContract, ());
@@ -222,8 +234,7 @@ impl World {
                         let ws: std::vec::Vec<String> = self.sgs.iter().map(|s| match m.get(s.clone()) { Some(w) => format!("Some {}", w), None => "None".into() }).collect();
                         // weights of signers outside the universe would be invisible: count them
                         let extra = m.len() as usize - ws.iter().filter(|w| *w != "None").count();
-                        assert!(extra == 0, "weight map has keys outside the signer universe");
-                        format!("Some ({}, {})", t, list(&ws))
+                        if extra == 0 { format!("Some ({}, {})", t, list(&ws)) } else { "Some (-2, [])".into() } // keys outside the universe: never equal to a model value
                     }
                     (Err(_), Err(_)) | (Ok(Err(_)), Ok(Err(_))) | (Err(_), Ok(Err(_))) | (Ok(Err(_)), Err(_)) => "None".into(),
                     _ => "Some (-1, [])".into(), // the two getters disagree about installation: never equal to a model value
@@ -457,7 +468,7 @@ fn gen_simple(w: &mut World, out: &mut Out, rng: &mut Rng, steps: usize) {
             0..=3 => { w.s_install(out, &auth, a, r, &rs, t, false); }
             4..=6 => { w.s_install(out, &auth, a, r, &rs, t, true); }
             7 => { w.uninstall(out, Pol::S, &auth, a, r); }
-            8 => { w.advance(out, rng.below(50) as u32); }
+            8 => { if rng.chance(1, 2) { let g = *rng.pick(&GAPS); w.advance(out, g); out.label("advance/long"); } else { w.advance(out, rng.below(50) as u32); } }
             9..=12 => { let sg = sublist_d(rng, 5, 1, 4); let cx = if rng.chance(1, 2) { Cx::transfer(5) } else { malformed_ctx(rng, 5) }; w.can_enforce(out, Pol::S, a, r, &cx, &sg); }
             13 => { // batch
                 let sg = sublist(rng, 5, false);
@@ -512,7 +523,7 @@ fn gen_weighted(w: &mut World, out: &mut Out, rng: &mut Rng, steps: usize) {
                 if w.w_set_weight(out, &auth, a, r, sg, wv) { if let Some(s) = shadow[k].as_mut() { s.0[sg] = Some(wv); } }
             }
             11 => { if w.uninstall(out, Pol::W, &auth, a, r) { shadow[k] = None; } }
-            12 => { w.advance(out, rng.below(50) as u32); }
+            12 => { if rng.chance(1, 2) { let g = *rng.pick(&GAPS); w.advance(out, g); out.label("advance/long"); } else { w.advance(out, rng.below(50) as u32); } }
             13..=15 => { let sg = sublist_d(rng, 6, 1, 3); w.can_enforce(out, Pol::W, a, r, &Cx::transfer(3), &sg); }
             16 => {
                 let sg = sublist(rng, 5, false);
@@ -568,6 +579,7 @@ fn gen_spending(w: &mut World, out: &mut Out, rng: &mut Rng, steps: usize, small
                     1 | 2 => { match w.prev_hist[k].first() { Some(x) => (x.1 as u64 + per as u64).saturating_sub(w.now as u64).min(100_000) as u32, None => 1 } }          // oldest entry just expires
                     3 => { match w.prev_hist[k].first() { Some(x) => (x.1 as u64 + per as u64).saturating_sub(w.now as u64 + 1).min(100_000) as u32, None => 1 } }        // ... one ledger before that
                     4 => per.min(100_000), 5 => (per.min(100_000)).saturating_add(1),
+                    6 if rng.chance(1, 3) => { out.label("advance/long"); *rng.pick(&GAPS) }
                     _ => rng.below(3) as u32 + 1,
                 };
                 w.advance(out, d);
@@ -842,6 +854,62 @@ fn enum_thresholds(out: &mut Out) {
     }
 }
 
+/// configured thresholds, weights, spending limits, histories and cached totals must survive
+/// arbitrarily long ledger gaps: nothing but an explicit call may change them
+fn persistence(out: &mut Out, rng: &mut Rng, host: HostCfg, start: u32) {
+    let me = |a: usize| Auth { via: a == 0, mock: if a == 0 { std::vec![] } else { std::vec![a] } };
+    let mut w = World::with_host(start, NACCT, RIDS.len(), host);
+    let sg = [0usize];
+    // every kind of stored item, on several keys
+    w.s_install(out, &me(1), 1, 0, &[0, 1, 2], 2, false);
+    w.s_install(out, &me(0), 0, 1, &[0], 1, false);
+    w.w_install(out, &me(2), 2, 0, &[(0, 100), (1, 75), (2, 50)], 150);
+    w.w_install(out, &me(1), 1, 1, &[(3, 1), (4, u32::MAX - 1)], u32::MAX);
+    w.l_install(out, &me(1), 1, 0, 100, 50);
+    w.l_install(out, &me(0), 0, 0, 1000, u32::MAX);          // nothing ever leaves this window
+    w.l_install(out, &me(2), 2, 1, 50, 600_001);
+    w.enforce(out, Pol::L, &me(1), 1, 0, &[Cx::transfer(60)], &sg);
+    w.enforce(out, Pol::L, &me(0), 0, 0, &[Cx::transfer(500), Cx::transfer(499)], &sg);
+    w.enforce(out, Pol::L, &me(2), 2, 1, &[Cx::transfer(30)], &sg);
+    let ask = |w: &mut World, out: &mut Out, rng: &mut Rng| {
+        w.can_enforce(out, Pol::S, 1, 0, &Cx::transfer(1), &[0, 1]);
+        w.can_enforce(out, Pol::S, 1, 0, &Cx::transfer(1), &[0]);
+        w.can_enforce(out, Pol::S, 0, 1, &Cx::transfer(1), &[2]);
+        w.can_enforce(out, Pol::W, 2, 0, &Cx::transfer(1), &[0, 2]);
+        w.can_enforce(out, Pol::W, 2, 0, &Cx::transfer(1), &[1, 2]);
+        w.can_enforce(out, Pol::W, 1, 1, &Cx::transfer(1), &[3, 4]);
+        w.can_enforce(out, Pol::L, 0, 0, &Cx::transfer(1), &sg);      // 999 + 1 <= 1000
+        w.can_enforce(out, Pol::L, 0, 0, &Cx::transfer(2), &sg);      // the old transfers still count
+        w.can_enforce(out, Pol::L, 2, 1, &Cx::transfer(21), &sg);
+        w.can_enforce(out, Pol::L, 1, 0, &Cx::transfer(41), &sg);
+        if rng.chance(1, 2) { w.enforce(out, Pol::S, &me(1), 1, 0, &[Cx::transfer(1)], &[1, 2]); }
+        if rng.chance(1, 2) { w.enforce(out, Pol::W, &me(2), 2, 0, &[Cx::transfer(1)], &[0, 2]); }
+    };
+    let mut k = 0u32;
+    for &gap in GAPS.iter() {
+        w.advance(out, gap);                                   // ONE call: nothing is read during the gap
+        out.label("advance/long");
+        ask(&mut w, out, rng);
+        // rewrite part of the state so that the next gap also covers freshly written entries
+        match k % 4 {
+            0 => { w.s_install(out, &me(1), 1, 0, &[0, 1, 2], 3, true); w.enforce(out, Pol::L, &me(2), 2, 1, &[Cx::transfer(5)], &sg); }
+            1 => { w.w_set_weight(out, &me(2), 2, 0, 1, 80); w.l_set_limit(out, &me(1), 1, 0, 90); }
+            2 => { w.w_set_threshold(out, &me(2), 2, 0, 130); w.enforce(out, Pol::L, &me(1), 1, 0, &[Cx::transfer(10)], &sg); }
+            _ => { w.s_install(out, &me(1), 1, 0, &[0, 1, 2], 2, true); w.l_set_limit(out, &me(0), 0, 0, 1001); w.enforce(out, Pol::L, &me(0), 0, 0, &[Cx::transfer(2)], &sg); }
+        }
+        k += 1;
+    }
+    // two long gaps in a row with nothing in between, then everything is asked again
+    w.advance(out, 4_000_000); out.label("advance/long");
+    w.advance(out, 600_000); out.label("advance/long");
+    ask(&mut w, out, rng);
+    w.uninstall(out, Pol::S, &me(1), 1, 0);
+    w.uninstall(out, Pol::L, &me(0), 0, 0);
+    w.advance(out, 1_100_000); out.label("advance/long");
+    ask(&mut w, out, rng);                                     // uninstalled stays uninstalled
+    w.finish(out, &format!("persistence-host{}", if host.min_temp == 1 { 0 } else { 1 }), start);
+}
+
 fn main() {
     let mut out = Out::new("From SC Require Import Lib.Prelude Lib.Int Lib.Host Model.Policies Run.C14.\nOpen Scope Z_scope.", "check_all");
     out.per_shard(400);
@@ -849,6 +917,7 @@ fn main() {
     let thorough = out.cfg.thorough;
     let scale = out.cfg.scale as usize;
     directed(&mut out);
+    for (i, h) in HOSTS.iter().enumerate() { persistence(&mut out, &mut rng, *h, 1 + 1000 * i as u32); }
     // history bound (MAX_HISTORY_ENTRIES), reached with batches
     let nb = if thorough { 6 } else { 1 } * scale;
     for _ in 0..nb {
@@ -860,7 +929,7 @@ fn main() {
     let (ntr, steps) = if thorough { (600 * scale, 90) } else { (60 * scale, 45) };
     for i in 0..ntr {
         let start = match rng.below(6) { 0 => 1, 1 => 2, 2 => 1_000_000, 3 => 2_000_000_000, _ => 1 + rng.below(40) as u32 };
-        let mut w = World::new(start);
+        let mut w = World::with_host(start, NACCT, RIDS.len(), HOSTS[i % 2]);
         let steps = steps + rng.below(steps as u64 / 2) as usize;
         let desc = match i % 5 {
             0 => { gen_simple(&mut w, &mut out, &mut rng, steps); "random-simple" }
